@@ -609,6 +609,13 @@ class Explorer:
             if self.paths >= self.max_paths:
                 self.undecided_paths.append(f"path budget {self.max_paths} exhausted")
                 break
+            # wall-clock budget per scenario (checked between paths): a change to the code under contract can make the
+            # exploration explode (e.g. a loop whose step becomes symbolic); the check must still end, as undecided
+            budget = getattr(self, "time_budget_s", None) or float(os.environ.get(
+                "PYVC_SCENARIO_BUDGET", 3600 if os.environ.get("PYVC_TIER") == "thorough" else 900))
+            if time.time() - t0 > budget:
+                self.undecided_paths.append(f"time budget {int(budget)}s exhausted after {self.paths} paths")
+                break
             if getattr(self, "stop_on_failure", False) and any(o.status == "failed" and o.model is not None for o in self.results):
                 break  # scenario option stop_on_failure (opt-in): a counter-model exists already; the verdict cannot improve
             prefix = self.worklist.pop()
